@@ -463,6 +463,261 @@ def close_ints(a, b):
 
 
 # ------------------------------------------------------------------------------------------------
+# "instrument-style" files: a library-written file whose header is re-declared the way instruments write it — another
+# phase-resolution code, scale / obliquity factors, a longer header, an intensity block of ac_n_buckets frames between
+# header and phase.  The height map of such a file must still come back in place (scaled by the declared factors), the
+# intensity block must not leak into it, and a cut must still be rejected or warned.
+# ------------------------------------------------------------------------------------------------
+_RES = {0: 4096, 1: 32768, 2: 131072}
+F_RES = [1, 0, 2]
+F_SO = [(1.0, 1.0), (0.5, 1.0), (1.0, 2.0), (1.5, 0.75), (0.25, 4.0)]
+F_INT = [(0, 0, 0), (3, 2, 0), (3, 2, 1), (2, 3, 2), (4, 1, 3), (1, 5, 4), (7, 3, 1)]
+F_PAD = [0, 6, 1, 0, 3]
+F_MIA = ['first', 'last', 'avg', 'AVG', 'Last']
+
+
+def foreign_variant(i, rng=None):
+    """the i-th combination (cycle lengths 3, 5, 7, 5, 5: every pair of settings appears within 35 consecutive i)"""
+    iw, ih, ib = F_INT[i % len(F_INT)]
+    S, O = F_SO[i % len(F_SO)]
+    if rng is not None and i % 4 == 3:
+        S, O = float(np.float32(10 ** rng.uniform(-0.6, 0.6))), float(np.float32(10 ** rng.uniform(-0.6, 0.6)))
+    return {'res': F_RES[i % 3], 'S': S, 'O': O, 'iw': iw, 'ih': ih, 'ib': ib, 'pad': F_PAD[(i // 3) % len(F_PAD)],
+            'mia': F_MIA[(i // 2) % len(F_MIA)], 'iseed': int(i * 7919 % 65536)}
+
+
+def foreign_block(fo):
+    nb = fo['ib'] if fo['ib'] else 1
+    n = fo['iw'] * fo['ih'] * nb
+    return ((np.arange(n, dtype=np.int64) * 40503 + fo['iseed']) % 65536).astype(np.uint16).reshape(nb, fo['ih'], fo['iw'])
+
+
+def make_foreign(raw, fo):
+    """-> (file bytes, offset of the phase block)"""
+    pio, _ = _impl()
+    helper = pio._zygo_metadata_helper()
+    b = bytearray(raw[:834])
+    for name, v in (('phase_res', fo['res']), ('scale_factor', fo['S']), ('obliquity_factor', fo['O']), ('ac_width', fo['iw']),
+                    ('ac_height', fo['ih']), ('ac_n_buckets', fo['ib']), ('header_size', 834 + fo['pad']),
+                    ('ac_n_bytes', foreign_block(fo).size * 2)):
+        fmt, lo, hi, _d = helper[name]
+        struct.pack_into(fmt, b, lo, v)
+    blk = foreign_block(fo).astype('<u2').tobytes()
+    pre = bytes(b) + bytes([0xA5] * fo['pad']) + blk
+    return pre + raw[834:], len(pre)
+
+
+def read_foreign(route, path, fo, prec32=False):
+    """-> (phase, lateral_resolution, wavelength, intensity)"""
+    pio, Interferogram = _impl()
+    with precision(prec32):
+        if route == 'ifg':
+            i2 = Interferogram.from_zygo_dat(path, multi_intensity_action=fo['mia'])
+            return i2.data, i2.meta['lateral_resolution'], i2.meta['wavelength'], i2.intensity
+        r = pio.read_zygo_dat(path, multi_intensity_action=fo['mia'])
+        return r['phase'], r['meta']['lateral_resolution'], r['meta']['wavelength'], r['intensity']
+
+
+def judge_foreign(full, lat0, wv0, fo, out, lat, wv, inten, prec32=False):
+    """the property on an instrument-style file, stated against the plain library file of the same map (`full`)"""
+    out = np.asarray(out, dtype=np.float64)
+    if tuple(out.shape) != tuple(full.shape):
+        return f'shape {tuple(full.shape)} came back as {tuple(out.shape)}'
+    if not np.array_equal(np.isnan(out), np.isnan(full)):
+        return (f'invalid samples moved: {np.argwhere(np.isnan(full)).tolist()[:4]} in the plain file, '
+                f'{np.argwhere(np.isnan(out)).tolist()[:4]} with {fo}')
+    k = fo['S'] * fo['O'] * 32768 / _RES[fo['res']]
+    ok = ~np.isnan(full)
+    if ok.any():
+        want = full[ok] * k
+        err = np.abs(out[ok] - want)
+        lim = (2.0 ** -21 if prec32 else 1e-12) * np.abs(want)
+        if (err > lim).any():
+            i = int(np.argmax(err - lim))
+            return (f'sample {np.argwhere(ok)[i].tolist()} reads {out[ok][i]!r}, the same counts in a plain file read {full[ok][i]!r} '
+                    f'(x{k} expected for scale {fo["S"]}, obliquity {fo["O"]}, phase_res {fo["res"]}; intensity '
+                    f'{fo["ib"]}x{fo["ih"]}x{fo["iw"]}, header {834 + fo["pad"]} bytes)')
+    if lat != lat0 or wv != wv0:
+        return f'lateral resolution / wavelength {lat0!r}, {wv0!r} came back as {lat!r}, {wv!r}'
+    blk = foreign_block(fo)
+    mia = fo['mia'].lower()
+    want_i = blk[0] if mia == 'first' else blk[-1] if mia == 'last' else blk.astype(np.float64).sum(axis=0) / blk.shape[0]
+    inten = np.asarray(inten)
+    if tuple(inten.shape) != tuple(want_i.shape) or not np.array_equal(np.asarray(inten, dtype=np.float64), np.asarray(want_i, dtype=np.float64)):
+        return f'intensity frame ({mia}) of a {blk.shape} block came back as shape {tuple(inten.shape)}: {np.asarray(inten).ravel()[:4]} vs {want_i.ravel()[:4]}'
+    return None
+
+
+def foreign_pred(route, a, dx, wvl, fo, tmp, cut=None, prec32=False):
+    pio, _ = _impl()
+    f = os.path.join(tmp, 'f.dat')
+    with _quiet():
+        pio.write_zygo_dat(f, np.array(a, dtype=float), dx=dx, wavelength=wvl)
+        raw = open(f, 'rb').read()
+        with precision(prec32):
+            r0 = pio.read_zygo_dat(f)
+        full, lat0, wv0 = r0['phase'], r0['meta']['lateral_resolution'], r0['meta']['wavelength']
+    data, off = make_foreign(raw, fo)
+    if cut is None:
+        with open(f, 'wb') as fh:
+            fh.write(data)
+        with _quiet() as w:
+            out, lat, wv, inten = read_foreign(route, f, fo, prec32)
+            if _user_warned(w):
+                return 'complete instrument-style file read with a truncation warning'
+        return judge_foreign(np.asarray(full, dtype=np.float64), lat0, wv0, fo, out, lat, wv, inten, prec32)
+    if cut >= len(data):
+        return None
+    with open(f, 'wb') as fh:
+        fh.write(data)
+    with _quiet():
+        fullf = np.asarray(read_foreign('zygo', f, fo)[0], dtype=np.float64)
+    return judge_zygo_cut(fullf, read_foreign_cut(route, f, data, cut, fo), cut, hdr=off)
+
+
+def read_foreign_cut(route, path, data, k, fo):
+    with open(path, 'wb') as fh:
+        fh.write(data[:k])
+    with _quiet() as w:
+        try:
+            out = read_foreign(route, path, fo)[0]
+        except Exception as ex:   # noqa
+            return ('raise', type(ex).__name__)
+        return ('ok', np.asarray(out, dtype=np.float64), _user_warned(w))
+
+
+def _foreign_family(ctx, pio, Interferogram, tmp, zc):
+    f2w = C.f2w
+    bases = [c for c in zc if 2 <= c['v'].size <= 40 and nontrivial(c) and c['opt']['dtype'] == 'f8' and c['cls'] != 'huge']
+    # keep NaN patterns and shapes varied
+    bases = sorted(bases, key=lambda c: (c['nan'] == 'none', c['shape'][0] == c['shape'][1]))[:ctx.scale(6, 30)]
+    per = ctx.scale(12, 35) * (2 if ctx.widen else 1)
+    recs, lines = [], []
+    n = int(ctx.rng.integers(0, 35))
+    for c in bases:
+        f = os.path.join(tmp, 'fb.dat')
+        with _quiet():
+            pio.write_zygo_dat(f, c['a'], dx=c['dx'], wavelength=c['wvl'])
+            raw = open(f, 'rb').read()
+        for _ in range(per):
+            fo = foreign_variant(n, ctx.rng)
+            n += 1
+            prec32 = n % 5 == 0
+            route = 'ifg' if n % 3 == 0 else 'zygo'
+            with _quiet():
+                with precision(prec32):
+                    r0 = pio.read_zygo_dat(f if False else _rewrite(f, raw))
+            data, off = make_foreign(raw, fo)
+            rec = {'c': c, 'fo': fo, 'route': route, 'prec32': prec32, 'full': np.asarray(r0['phase'], dtype=np.float64),
+                   'lat0': r0['meta']['lateral_resolution'], 'wv0': r0['meta']['wavelength'], 'off': off}
+            with open(f, 'wb') as fh:
+                fh.write(data)
+            try:
+                with _quiet() as w:
+                    rec['out'] = read_foreign(route, f, fo, prec32)
+                    rec['warned'] = _user_warned(w)
+            except Exception as ex:   # noqa
+                rec['rerr'] = f'{type(ex).__name__}: {ex}'
+            lines.append(f'zreadl {1 if prec32 else 0} {fo["mia"].lower()} {data.hex()}')
+            recs.append(rec)
+    # truncation of instrument-style files: every cut point of the tier, both routes
+    trunc = []
+    tsel = [r for r in recs if r['fo']['iw'] * r['fo']['ih'] > 0 and not r['prec32']]
+    tsel = (tsel[:1] + [r for r in tsel if r['fo']['pad'] and r['fo']['ib'] > 1][:1] + tsel[1:])[:ctx.scale(3, 8)]
+    for r in tsel:
+        f = os.path.join(tmp, 'ft.dat')
+        with _quiet():
+            pio.write_zygo_dat(f, r['c']['a'], dx=r['c']['dx'], wavelength=r['c']['wvl'])
+            raw = open(f, 'rb').read()
+        data, off = make_foreign(raw, r['fo'])
+        with open(f, 'wb') as fh:
+            fh.write(data)
+        with _quiet():
+            fullf = np.asarray(read_foreign('zygo', f, r['fo'])[0], dtype=np.float64)
+        ks = [k for k in _cuts(ctx, len(data)) if k >= 800] if not ctx.thorough else list(range(len(data)))
+        res = {rt: [read_foreign_cut(rt, f, data, k, r['fo']) for k in ks] for rt in ('zygo', 'ifg')}
+        lines.append(f'ztruncl 0 {r["fo"]["mia"].lower()} {data.hex()} ' + ' '.join(map(str, ks)))
+        trunc.append({'r': r, 'ks': ks, 'res': res, 'full': fullf, 'off': off})
+
+    rep = iter(C.lean_driver('C14', lines))
+    for rec in recs:
+        c, fo, route = rec['c'], rec['fo'], rec['route']
+        m = next(rep)
+        case = descr(c, {'route': route})
+        case['opt'] = {'foreign': fo, 'prec32': rec['prec32']}
+        item = f'{route}.foreign'
+        ctx.case(item, {'shape': case['shape'], 'values': case['values'], 'foreign': fo, 'p32': rec['prec32']}, nontrivial=True,
+                 tag=f'res{fo["res"]}/S{"1" if fo["S"] == 1 else "x"}O{"1" if fo["O"] == 1 else "x"}/int{fo["ib"]}x{fo["ih"]}x{fo["iw"]}/pad{fo["pad"]}/'
+                     f'{fo["mia"].lower()}{"/p32" if rec["prec32"] else ""}/{c["nan"]}')
+        if 'rerr' in rec:
+            ctx.disagree(item, case, 'raised ' + rec['rerr'], m[:60])
+            ctx.pred_fail(item, case, 'reader raised on a complete instrument-style file: ' + rec['rerr'])
+            continue
+        out, lat, wv, inten = rec['out']
+        bad = judge_foreign(rec['full'], rec['lat0'], rec['wv0'], fo, out, lat, wv, inten, rec['prec32'])
+        if rec.get('warned'):
+            bad = bad or 'complete instrument-style file read with a truncation warning'
+        if m == 'none' or m == 'bad-op':
+            ctx.disagree(item, case, f'array of shape {tuple(out.shape)}', m)
+        else:
+            left, right = m.split(' ; ')
+            t = left.split()
+            mvals = np.array([C.w2f(x) for x in t[7:]])
+            ti = right.split()
+            mi = np.array([C.w2f(x) for x in ti[3:]])
+            if tuple(out.shape) != (int(t[0]), int(t[1])):
+                ctx.disagree(item, case, f'shape {tuple(out.shape)}', f'shape {(int(t[0]), int(t[1]))}')
+            elif not same_bits(out, mvals):
+                if bad is None and close_values(out, mvals, 4 if not rec['prec32'] else 2 ** 30):
+                    ctx.notes.append(f'{item}: values differ from the model in the last bits only and the predicate holds: not a disagreement')
+                else:
+                    o64 = np.asarray(out, dtype=np.float64).ravel()
+                    bad_i = [i for i in range(o64.size) if not same_bits(o64[i:i + 1], mvals[i:i + 1])]
+                    i = bad_i[0]
+                    ctx.disagree(item, case, f'{len(bad_i)} samples differ; first at flat index {i}: {o64[i]!r}', f'{mvals[i]!r}')
+            if not same_bits([lat, wv], [C.w2f(t[2]), C.w2f(t[3])]) or t[6] == '1':
+                ctx.disagree(item, case, [lat, wv, rec.get('warned')], [C.w2f(t[2]), C.w2f(t[3]), t[6] == '1'], note='lateral_resolution, wavelength, warned')
+            inten = np.asarray(inten)
+            if tuple(inten.shape) != (int(ti[1]), int(ti[2])) or not np.array_equal(np.asarray(inten, dtype=np.float64).ravel(), mi):
+                ctx.disagree(item, case, f'intensity {tuple(inten.shape)} {np.asarray(inten).ravel()[:6].tolist()}',
+                             f'intensity {(int(ti[1]), int(ti[2]))} {mi[:6].tolist()}')
+        if bad:
+            ctx.pred_fail(item, case, bad)
+    for t in trunc:
+        r = t['r']
+        replies = next(rep).split(' | ')
+        for route in ('zygo', 'ifg'):
+            for k, rs, m in zip(t['ks'], t['res'][route], replies):
+                zone = 'header' if k < 834 + r['fo']['pad'] else 'intensity' if k < t['off'] else 'data'
+                case = descr(r['c'], {'route': route, 'cut': k})
+                case['opt'] = {'foreign': r['fo']}
+                item = f'{route}.foreign_truncation'
+                ctx.case(item, {'shape': case['shape'], 'values': case['values'], 'cut': k, 'foreign': r['fo']}, nontrivial=True,
+                         tag=f'{zone}/{(k - t["off"]) % 4 if k >= t["off"] else "-"}/int{r["fo"]["ib"]}x{r["fo"]["ih"]}x{r["fo"]["iw"]}/pad{r["fo"]["pad"]}')
+                if rs[0] == 'raise':
+                    if m != 'none':
+                        ctx.disagree(item, case, f'raised {rs[1]}', m[:80])
+                elif m == 'none':
+                    ctx.disagree(item, case, f'array {tuple(rs[1].shape)}, warned={rs[2]}', 'rejected')
+                else:
+                    tt = m.split()
+                    mvals = np.array([C.w2f(x) for x in tt[7:]])
+                    if (int(tt[0]), int(tt[1])) != tuple(rs[1].shape) or (tt[6] == '1') != rs[2] or \
+                            not (same_bits(rs[1], mvals) or close_values(rs[1], mvals)):
+                        ctx.disagree(item, case, f'invalid at {np.flatnonzero(np.isnan(rs[1].ravel())).tolist()[:8]} warned={rs[2]}',
+                                     f'invalid at {np.flatnonzero(np.isnan(mvals)).tolist()[:8]} warned={tt[6] == "1"}')
+                bad = judge_zygo_cut(t['full'], rs, k, hdr=t['off'])
+                if bad:
+                    ctx.pred_fail(item, case, bad)
+
+
+def _rewrite(f, raw):
+    with open(f, 'wb') as fh:
+        fh.write(raw)
+    return f
+
+
+# ------------------------------------------------------------------------------------------------
 # correspondence
 # ------------------------------------------------------------------------------------------------
 def correspondence(ctx):
@@ -871,6 +1126,8 @@ def _correspondence(ctx, pio, Interferogram, tmp):
             if bad:
                 ctx.pred_fail('codev.truncation', case, bad)
 
+    _foreign_family(ctx, pio, Interferogram, tmp, zc)
+
     # large maps (dimensions and sizes the list-based model would take too long on): real code + predicates only
     for route in ('zygo', 'ifg', 'codev'):
         for c in gen_cases(ctx, route, ctx.scale(2, 8), shapes=BIG_SHAPES):
@@ -923,6 +1180,8 @@ def _apply_dtype(a, opt):
 
 
 def _run_pred(route, a, dx, wvl, tmp, opt=None):
+    if opt and opt.get('foreign'):
+        return foreign_pred(route, a, dx, wvl, opt['foreign'], tmp, prec32=bool(opt.get('prec32')))
     a = _apply_dtype(a, opt)
     if route in ('zygo', 'ifg'):
         return pred_zygo_roundtrip(route, tmp, a, dx, wvl, opt)
@@ -931,8 +1190,10 @@ def _run_pred(route, a, dx, wvl, tmp, opt=None):
     raise ValueError(route)
 
 
-def _cut_pred(route, a, dx, wvl, k, tmp):
+def _cut_pred(route, a, dx, wvl, k, tmp, opt=None):
     pio, _ = _impl()
+    if opt and opt.get('foreign'):
+        return foreign_pred(route, a, dx, wvl, opt['foreign'], tmp, cut=k)
     if route in ('zygo', 'ifg'):
         f = os.path.join(tmp, 's.dat')
         with _quiet():
@@ -972,7 +1233,7 @@ def search(ctx, hints):
         def consider(route, a, dx, wvl, cut=None, opt=None):
             nonlocal best
             try:
-                bad = _cut_pred(route, a, dx, wvl, cut, tmp) if cut is not None else _run_pred(route, a, dx, wvl, tmp, opt)
+                bad = _cut_pred(route, a, dx, wvl, cut, tmp, opt) if cut is not None else _run_pred(route, a, dx, wvl, tmp, opt)
             except Exception as ex:   # noqa  an exception on a complete in-scope map is a violation
                 bad = f'raised {type(ex).__name__}: {ex}'
             if bad and (best is None or a.size < best[0]):
@@ -998,6 +1259,27 @@ def search(ctx, hints):
                     if opt and 'fileobj' in opt and route != 'zygo':
                         continue
                     consider(route, a, 0.5, 0.6328, opt=opt)
+        if best is None:
+            # instrument-style re-declarations of small written files: every pair of (phase_res, scale/obliquity, intensity
+            # block, header length, frame action), then every cut point of two of them
+            for (h, w) in ((1, 2), (2, 3), (3, 2)):
+                a = (np.arange(1, h * w + 1, dtype=float).reshape(h, w) - 2.5) * 123.0
+                if (h, w) == (2, 3):
+                    a[0, 2] = np.nan
+                for i in range(35):
+                    for route in ('zygo', 'ifg'):
+                        consider(route, a, 0.5, 0.6328, opt={'foreign': foreign_variant(i)})
+                if best is not None:
+                    break
+        if best is None:
+            a = (np.arange(1, 7, dtype=float).reshape(2, 3) - 2.5) * 123.0
+            for i in (3, 10):
+                fo = foreign_variant(i)
+                n = 834 + fo['pad'] + 2 * foreign_block(fo).size + 4 * a.size
+                for route in ('zygo', 'ifg'):
+                    for k in range(n):
+                        if consider(route, a, 0.5, 0.6328, cut=k, opt={'foreign': fo}):
+                            break
         if best is None:
             for (h, w) in ((1, 3), (2, 3), (3, 2)):
                 a = (np.arange(1, h * w + 1, dtype=float).reshape(h, w) - 2.5) * 123.0
@@ -1035,7 +1317,7 @@ def replay(inp):
             print('map written:\n', a)
         try:
             if c.get('cut') is not None:
-                bad = _cut_pred(route, a, c['dx'], c['wvl'], c['cut'], tmp)
+                bad = _cut_pred(route, a, c['dx'], c['wvl'], c['cut'], tmp, opt)
             else:
                 bad = _run_pred(route, a, c['dx'], c['wvl'], tmp, opt)
         except Exception as ex:   # noqa
